@@ -314,6 +314,8 @@ impl Default for ZipOffsetBlobStoreBuilder {
 pub struct BatchZipOffsetBlobStoreBuilder {
     inner: ZipOffsetBlobStoreBuilder,
     batch_buffer: FastVec<u8>,
+    /// End position in `batch_buffer` of each record of the current batch
+    batch_record_ends: Vec<usize>,
     batch_size: usize,
     records_in_batch: usize,
 }
@@ -324,6 +326,7 @@ impl BatchZipOffsetBlobStoreBuilder {
         Ok(Self {
             inner: ZipOffsetBlobStoreBuilder::new()?,
             batch_buffer: FastVec::new(),
+            batch_record_ends: Vec::new(),
             batch_size,
             records_in_batch: 0,
         })
@@ -334,6 +337,7 @@ impl BatchZipOffsetBlobStoreBuilder {
         Ok(Self {
             inner: ZipOffsetBlobStoreBuilder::with_config(config)?,
             batch_buffer: FastVec::new(),
+            batch_record_ends: Vec::new(),
             batch_size,
             records_in_batch: 0,
         })
@@ -341,9 +345,12 @@ impl BatchZipOffsetBlobStoreBuilder {
 
     /// Add record to batch
     pub fn add_record(&mut self, data: &[u8]) -> Result<RecordId> {
+        // IDs are handed out in insertion order, counting the records still in the batch
+        let record_id = self.len();
+
         // Add to batch buffer
         self.batch_buffer.extend(data.iter().cloned())?;
-        self.batch_buffer.push(0)?; // Record separator
+        self.batch_record_ends.push(self.batch_buffer.len());
         self.records_in_batch += 1;
 
         // Flush batch if it's full
@@ -351,7 +358,7 @@ impl BatchZipOffsetBlobStoreBuilder {
             self.flush_batch()?;
         }
 
-        Ok(self.inner.len() as u32) // Return next record ID
+        Ok(record_id as u32)
     }
 
     /// Flush current batch to inner builder
@@ -360,14 +367,17 @@ impl BatchZipOffsetBlobStoreBuilder {
             return Ok(());
         }
 
-        // For now, just process the entire buffer as one record
-        // TODO: Implement proper record separation
-        if !self.batch_buffer.is_empty() {
-            self.inner.add_record(&self.batch_buffer.as_slice())?;
+        // Hand each record of the batch to the inner builder, in insertion order
+        let buffer = self.batch_buffer.as_slice();
+        let mut start = 0;
+        for &end in &self.batch_record_ends {
+            self.inner.add_record(&buffer[start..end])?;
+            start = end;
         }
 
         // Clear batch
         self.batch_buffer.clear();
+        self.batch_record_ends.clear();
         self.records_in_batch = 0;
 
         Ok(())
